@@ -750,6 +750,152 @@ def r12_11(chk, P, rule='R12.11'):
                    'was to initialise it failed before its init call: the release function then follows whatever pointers the stack held')
     return n
 
+def _eread_set(P):
+    """file-local functions of vorbisfile.c that can answer OV_EREAD: a literal return of -128, or the result of such a function"""
+    lit = set()
+    fns = [F for F in P.functions() if F.file.endswith('vorbisfile.c') and F.entry is not None]
+    for F in fns:
+        for r in F.nodes('ret'):
+            c = F.ex[r].get('c')
+            if c and common.const_val(F, c[0]) == -128:
+                lit.add(P.key(F))
+    out = set(lit)
+    changed = True
+    while changed:
+        changed = False
+        for F in fns:
+            k = P.key(F)
+            if k in out:
+                continue
+            sd = common.single_defs(F)
+            for r in F.nodes('ret'):
+                c = F.ex[r].get('c')
+                if not c:
+                    continue
+                rn = F.ex[F.strip_casts(c[0])]
+                src = []
+                if rn['k'] == 'call':
+                    src.append(F.strip_casts(c[0]))
+                elif rn['k'] == 'ref' and rn['decl'].get('kind') == 'var':
+                    for n, nd in F.ex.items():
+                        if nd['k'] == 'assign' and nd['op'] == '=' and n in F.pos:
+                            l = F.ex[F.strip_casts(nd['c'][0])]
+                            if l['k'] == 'ref' and l['decl'] == rn['decl'] and F.ex[F.strip_casts(nd['c'][1])]['k'] == 'call':
+                                src.append(F.strip_casts(nd['c'][1]))
+                        elif nd['k'] == 'decl':
+                            for v in nd['vars']:
+                                if v.get('id') == rn['decl'].get('id') and v.get('init') and F.ex[F.strip_casts(v['init'])]['k'] == 'call':
+                                    src.append(F.strip_casts(v['init']))
+                for cc in src:
+                    if any(t in out for t in P.call_targets(F, cc)):
+                        out.add(k)
+                        changed = True
+    return out
+
+
+def r12_13(chk, P, rule='R12.13'):
+    chk.rule(rule, 'a read error met while the file is being mapped is not taken for the end of the data: in every file-local '
+             'function reachable from _open_seekable2 (the scans that build the link tables; public entry points excluded), each '
+             'call of a function that can answer OV_EREAD is analysed (K4 partitioned by a path flag) with that answer forced: '
+             'every return reached afterwards is negative.  A scan that merely stops at the error leaves a table entry computed '
+             'from half the pages (a link start of 0 for a link that starts later, a link too few) in a handle whose open succeeded')
+    import absint
+    from absint import V, K
+    root = P.need('_open_seekable2')
+    ER = _eread_set(P)
+    chk.require('_get_next_page' in ER and len(ER) >= 4, f'functions that can answer OV_EREAD: only {sorted(ER)}')
+    pub = set(P.public_api())
+    scope = [P.fn[k] for k in sorted(P.reachable([P.key(root)])) if k in P.fn and P.fn[k].file.endswith('vorbisfile.c')
+             and P.fn[k].name not in pub and P.fn[k].entry is not None]
+    n = 0
+    for F in scope:
+        sites = [c for c in sorted(F.calls(), key=lambda x: F.ex[x]['loc']) if any(t in ER for t in P.call_targets(F, c))]
+        for c in sites:
+            class H(k2.Flags):
+                def post_call(self, A, env, e, r, c=c):
+                    if e == c:
+                        env['$flags'] = env.get('$flags', frozenset()) | {'eread'}
+                        return K(-128)
+                    return None
+            h = H([])
+            A = absint.Analyzer(P, F, hooks=h, partition=k2.partition)
+            A.run()
+            callee = F.ex[c]['callee'].get('d') or '?'
+            same = [x for x in sites if F.ex[x]['callee'].get('d') == callee]
+            rets = [(e, v) for (e, env, v) in A.ret_states if 'eread' in env.get('$flags', frozenset())]
+            # a function that falls off its end (void) cannot report anything: its callers are in scope themselves
+            bad = [(e, v) for (e, v) in rets if v is None or v.hi >= 0]
+            chk.ob(rule, F.name, f'read-error-propagates:{callee}#{same.index(c)}', not bad, F.where(bad[0][0]) if bad else F.where(c),
+                   f'after an OV_EREAD answer every one of the {len(rets)} return state(s) is negative' if not bad else
+                   f'after `{F.s(c)[:60]}` answered OV_EREAD the function can still return {bad[0][1]} (`{F.s(bad[0][0])[:50]}`): the '
+                   'error is taken for the end of the data and the caller goes on with what was gathered so far')
+            n += 1
+    return n
+
+
+def r12_14(chk, P, rule='R12.14'):
+    chk.rule(rule, 'a failing read is told from the end of the data: the read callback has the calling convention of fread() -- a '
+             'failure is a count of 0 with errno set.  In every function that calls the read callback (K2, path flags): errno is '
+             'cleared on every path before the call, and every return after the call whose value may be 0 lies on paths that '
+             'have read errno since.  Without that, a transient read error is answered as end of data, which the scans that '
+             'map the file take for "no more pages here": the open succeeds with fewer links or shorter lengths than the file has')
+    import absint
+    from absint import V
+    n = 0
+
+    def errno_node(A, e):
+        nd = A.ex[e]
+        return nd['k'] == 'call' and nd['callee'].get('d') == '__errno_location'
+
+    def clears(A, env, e):
+        nd = A.ex[e]
+        if nd['k'] != 'assign' or nd['op'] != '=':
+            return False
+        l = A.ex[A.F.strip_casts(nd['c'][0])]
+        return l['k'] == 'un' and l['op'] == '*' and errno_node(A, A.F.strip_casts(l['c'][0])) and common.const_val(A.F, nd['c'][1]) == 0
+
+    def reads(A, env, e):
+        nd = A.ex[e]
+        if not (nd['k'] == 'un' and nd['op'] == '*' and errno_node(A, A.F.strip_casts(nd['c'][0]))):
+            return False
+        par = A.F.sparent.get(e)
+        while par is not None and A.ex[par]['k'] == 'cast':
+            e, par = par, A.F.sparent.get(par)
+        return not (par is not None and A.ex[par]['k'] == 'assign' and A.ex[par]['c'][0] == e)
+
+    def is_read_cb(A, env, e):
+        return A.ex[e]['k'] == 'call' and 'cb:read_func' in P.call_targets(A.F, e)
+    for F in P.functions():
+        if not F.file.endswith('vorbisfile.c') or F.entry is None:
+            continue
+        cbs = [c for c in F.calls() if 'cb:read_func' in P.call_targets(F, c)]
+        if not cbs:
+            continue
+        setters = [('cleared', clears, True), ('seen', reads, True), ('seen', is_read_cb, False), ('called', is_read_cb, True)]
+        A, h = k2.analyse(P, F, setters, watch=lambda A_, e_: is_read_cb(A_, None, e_))
+        for c in cbs:
+            fls = h.at.get(c) or set()
+            ok = bool(fls) and all('cleared' in fl for fl in fls)
+            chk.ob(rule, F.name, f'errno-cleared-before-the-read#{cbs.index(c)}', ok, F.where(c),
+                   'errno = 0 on every path to the callback' if ok else 'the read callback can be called with a stale errno')
+            n += 1
+        bad = []
+        nret = 0
+        for (e, fl, v, env) in k2.ret_value_classes(A):
+            if 'called' not in fl:
+                continue
+            nret += 1
+            may0 = v is None or (v.lo <= 0 <= v.hi and 0 not in (v.ne or ()))
+            if may0 and 'seen' not in fl:
+                bad.append((e, v))
+        chk.ob(rule, F.name, 'zero-count-checked-against-errno', not bad and nret > 0, F.where(bad[0][0]) if bad else F.where(cbs[0]),
+               f'{nret} return state(s) after the callback; those that may be 0 have looked at errno' if not bad else
+               f'`{F.s(bad[0][0])}` can answer {bad[0][1]} after the read callback without errno having been looked at: a failed read '
+               'and the end of the data are the same answer')
+        n += 1
+    return n
+
+
 def run(chk, P):
     r12_8(chk, P)
     chk.floor('R12.8', 1)
@@ -767,6 +913,10 @@ def run(chk, P):
     from rules import c08
     c08.r08_14(common.Proxy(chk, 'R12.12'), P, rule='R12.12')
     chk.floor('R12.12', 5)
+    r12_13(chk, P)
+    chk.floor('R12.13', 8)
+    r12_14(chk, P)
+    chk.floor('R12.14', 2)
     r12_11(chk, P)
     chk.floor('R12.11', 6)
     E, C = io_sets(P)
